@@ -105,6 +105,9 @@ func (in *Interp) resetPath() {
 	in.allocs = nil
 	in.loopCount = nil
 	in.opaqueSeq = 0
+	in.allocLimit = nil
+	in.writeMark = 0
+	in.foreignWrites = nil
 	in.config = nil
 	in.ctxSeq = 0
 	in.cur = nil
